@@ -19,6 +19,7 @@ import (
 	"math/big"
 	"os"
 	"strings"
+	"sync"
 
 	"github.com/golang/geo/r3"
 	"github.com/golang/geo/s1"
@@ -89,21 +90,37 @@ func c17Isect(s []string) []string {
 	p := c17Pts(s, 4)
 	a0, a1, b0, b1 := p[0], p[1], p[2], p[3]
 	r := make([]string, 0, 33)
+	// The 8 argument orders are evaluated CONCURRENTLY (Intersection is a function of its arguments: it must be callable
+	// from several goroutines at once; a helper that keeps intermediate values in shared scratch storage shows up as results
+	// that differ between the orders — seeded change C16_7).  A panic in a call is reported as a NaN point.
+	var xs [8]s2.Point
+	var wg sync.WaitGroup
 	for k := 0; k < 8; k++ {
-		A0, A1, B0, B1 := a0, a1, b0, b1
-		if k&1 != 0 {
-			A0, A1 = a1, a0
-		}
-		if k&2 != 0 {
-			B0, B1 = b1, b0
-		}
-		var x s2.Point
-		if k&4 != 0 {
-			x = s2.Intersection(B0, B1, A0, A1)
-		} else {
-			x = s2.Intersection(A0, A1, B0, B1)
-		}
-		r = append(r, c17PtToks(x)...)
+		wg.Add(1)
+		go func(k int) {
+			defer wg.Done()
+			defer func() {
+				if e := recover(); e != nil {
+					xs[k] = s2.Point{Vector: r3.Vector{X: math.NaN(), Y: math.NaN(), Z: math.NaN()}}
+				}
+			}()
+			A0, A1, B0, B1 := a0, a1, b0, b1
+			if k&1 != 0 {
+				A0, A1 = a1, a0
+			}
+			if k&2 != 0 {
+				B0, B1 = b1, b0
+			}
+			if k&4 != 0 {
+				xs[k] = s2.Intersection(B0, B1, A0, A1)
+			} else {
+				xs[k] = s2.Intersection(A0, A1, B0, B1)
+			}
+		}(k)
+	}
+	wg.Wait()
+	for k := 0; k < 8; k++ {
+		r = append(r, c17PtToks(xs[k])...)
 	}
 	sp, sok := s2.VerifIntersectionStable(a0, a1, b0, b1)
 	r = append(r, bs(sok))
